@@ -155,7 +155,10 @@ def c18_cases(tier, rng):
                     # the same mailbox may be named twice in a transaction (and again in the next): one reply per accepted RCPT
                     addr = rng.choice(seen) if seen and rng.random() < 0.3 else b"t%dr%d@x" % (t, k)
                     seen.append(addr)
-                    c.rcpt(addr, reply=OK if ok else b"550 5.1.1 refused\r\n")
+                    # an accepted recipient is any 25x reply (251 "will forward", 252 "cannot verify but will try")
+                    c.rcpt(addr, reply=rng.choice([OK, OK, b"251 2.1.5 user not local; will forward\r\n", b"252 2.0.0 cannot verify\r\n",
+                                                   b"250-2.1.5 first line\r\n250 2.1.5 ok\r\n"]) if ok else
+                           rng.choice([b"550 5.1.1 refused\r\n", b"452 4.5.3 too many\r\n", b"551 5.1.6 moved\r\n"]))
                     acc += ok
                 if acc == 0:
                     c.rcpt(b"t%dlast@x" % t); acc = 1
